@@ -2,6 +2,7 @@ package e5path
 
 import (
 	"go/ast"
+	"go/token"
 	"go/types"
 	"golang.org/x/tools/go/ssa"
 	"strings"
@@ -122,9 +123,10 @@ type LitInst struct {
 	Alloc  *ssa.Alloc
 	Fields map[string]ssa.Value // raw stored values (inside the helper for helper-made literals)
 	Env    map[*ssa.Parameter]ssa.Value
-	Site   *ssa.BasicBlock // block of the analysed function where the instance comes into being
-	Pos    ssa.Instruction // instruction to report (the literal or the helper call)
-	Inner  *ssa.BasicBlock // for a literal made inside a helper: its block there (conditions inside the helper)
+	Free   map[*ssa.FreeVar]ssa.Value // for a literal made by a local closure: the captured cells
+	Site   *ssa.BasicBlock            // block of the analysed function where the instance comes into being
+	Pos    ssa.Instruction            // instruction to report (the literal or the helper call)
+	Inner  *ssa.BasicBlock            // for a literal made inside a helper: its block there (conditions inside the helper)
 }
 
 // Arg maps a helper parameter to the argument of this instance's call; other values are returned unchanged.
@@ -134,7 +136,66 @@ func (l *LitInst) Arg(v ssa.Value) ssa.Value {
 			return a
 		}
 	}
+	if a := freeVarValue(v, l.Free); a != nil {
+		return a
+	}
 	return v
+}
+
+// freeVarValue: v is a load of a captured variable whose cell in the enclosing function is assigned exactly
+// once: the value assigned there (nil otherwise).
+func freeVarValue(v ssa.Value, free map[*ssa.FreeVar]ssa.Value) ssa.Value {
+	ld, ok := v.(*ssa.UnOp)
+	if !ok || ld.Op != token.MUL || free == nil {
+		return nil
+	}
+	fv, ok := ld.X.(*ssa.FreeVar)
+	if !ok {
+		return nil
+	}
+	cell, ok := free[fv].(*ssa.Alloc)
+	if !ok || cell.Referrers() == nil {
+		return nil
+	}
+	var val ssa.Value
+	for _, ref := range *cell.Referrers() {
+		if st, ok := ref.(*ssa.Store); ok && st.Addr == ssa.Value(cell) {
+			if val != nil {
+				return nil
+			}
+			val = st.Val
+		}
+	}
+	if val != nil && anonymousPath(AccessPath(val)) {
+		// an anonymous value (a range element, a call result): the variable's own name says more
+		return nil
+	}
+	return val
+}
+
+// closureFree binds the free variables of the closure called by call (nil when the callee is not a local closure).
+func closureFree(call *ssa.CallCommon) map[*ssa.FreeVar]ssa.Value {
+	mc, ok := call.Value.(*ssa.MakeClosure)
+	if !ok {
+		return nil
+	}
+	f, ok := mc.Fn.(*ssa.Function)
+	if !ok {
+		return nil
+	}
+	out := map[*ssa.FreeVar]ssa.Value{}
+	for i, fv := range f.FreeVars {
+		if i < len(mc.Bindings) {
+			out[fv] = mc.Bindings[i]
+		}
+	}
+	return out
+}
+
+// helperExported: an exported function of the package is an entry point of its own, not a helper; a local
+// closure is always a helper of the function that defines it.
+func helperExported(h *ssa.Function) bool {
+	return h.Parent() == nil && ast.IsExported(h.Name())
 }
 
 func litFields(al *ssa.Alloc) map[string]ssa.Value {
@@ -179,9 +240,10 @@ func LiteralInstances(fn *ssa.Function, structName string) []LitInst {
 						ret, nret = rt, nret+1
 					}
 				}
-				if ast.IsExported(h.Name()) {
+				if helperExported(h) {
 					continue
 				}
+				free := closureFree(x.Common())
 				var returned *ssa.Alloc
 				if nret == 1 && len(ret.Results) == 1 {
 					returned, _ = ret.Results[0].(*ssa.Alloc)
@@ -197,7 +259,7 @@ func LiteralInstances(fn *ssa.Function, structName string) []LitInst {
 					for _, hb := range h.Blocks {
 						for _, hin := range hb.Instrs {
 							if al, ok := hin.(*ssa.Alloc); ok && structNameOf(al.Type()) == structName {
-								out = append(out, LitInst{Alloc: al, Fields: litFields(al), Env: env, Site: b, Pos: x, Inner: hb})
+								out = append(out, LitInst{Alloc: al, Fields: litFields(al), Env: env, Free: free, Site: b, Pos: x, Inner: hb})
 							}
 						}
 					}
@@ -213,7 +275,7 @@ func LiteralInstances(fn *ssa.Function, structName string) []LitInst {
 						env[prm] = x.Common().Args[i]
 					}
 				}
-				out = append(out, LitInst{Alloc: al, Fields: litFields(al), Env: env, Site: b, Pos: x})
+				out = append(out, LitInst{Alloc: al, Fields: litFields(al), Env: env, Free: free, Site: b, Pos: x})
 			}
 		}
 	}
@@ -263,7 +325,7 @@ func StoresWithHelpers(fn *ssa.Function) []StoreInst {
 				out = append(out, StoreInst{St: x, Site: b})
 			case ssa.CallInstruction:
 				h := x.Common().StaticCallee()
-				if h == nil || h.Pkg != fn.Pkg || h == fn || len(h.Blocks) == 0 || ast.IsExported(h.Name()) {
+				if h == nil || h.Pkg != fn.Pkg || h == fn || len(h.Blocks) == 0 || helperExported(h) {
 					continue
 				}
 				env := map[*ssa.Parameter]ssa.Value{}
@@ -342,7 +404,7 @@ func CallsWithHelpers(fn *ssa.Function, depth int) []CallInst {
 				}
 				out = append(out, CallInst{Call: ci, Env: env, Site: s, Via: v})
 				h := ci.Common().StaticCallee()
-				if h == nil || h.Pkg != fn.Pkg || h == fn || h == f || len(h.Blocks) == 0 || ast.IsExported(h.Name()) || d >= depth {
+				if h == nil || h.Pkg != fn.Pkg || h == fn || h == f || len(h.Blocks) == 0 || helperExported(h) || d >= depth {
 					continue
 				}
 				sub := map[*ssa.Parameter]ssa.Value{}
@@ -363,4 +425,20 @@ func CallsWithHelpers(fn *ssa.Function, depth int) []CallInst {
 	}
 	walk(fn, nil, nil, nil, 0)
 	return out
+}
+
+// anonymousPath: the rendered path names nothing but SSA temporaries.
+func anonymousPath(p string) bool {
+	depth := 0
+	for _, r := range p {
+		switch {
+		case r == '‹':
+			depth++
+		case r == '›':
+			depth--
+		case depth == 0 && (r == '_' || r >= 'a' && r <= 'z' || r >= 'A' && r <= 'Z'):
+			return false
+		}
+	}
+	return true
 }
